@@ -11,5 +11,6 @@ INVARIANTS
   BalanceAgrees
   CacheExact
   StableIsLedger
+  BlockwiseAgrees
   Shape
 CHECK_DEADLOCK FALSE
